@@ -84,10 +84,12 @@ def coq_cases(rows, sid):
                 add("KCls %d %s %s %s %d %s" % (sid, Emitter.b(r["any_ok"]), hexlist(r["url_hex"]), Emitter.b(r["cls_err"]),
                                                  r["cls_round"], Emitter.b(r["cls_bcast"])), r)
             if not r["on_panic"]:
-                add("KOn %d %s %d %s %s" % (sid, Emitter.b(r["parsed"]), r["from"], Emitter.b(r["on_enq"] > 0), r["attr_key"] or "0"), r)
+                add("KOn %d %s %s %d %s %s %d" % (sid, Emitter.b(r["parsed"]), Emitter.nlist(r["ids"]), r["from"], Emitter.b(r["on_enq"] > 0),
+                                                  r["attr_key"] or "0", r["attr_idx"] + 1 if r["on_enq"] > 0 else 0), r)
         elif k == "onmsg":
             if not r["panic"]:
-                add("KOn %d %s %d %s %s" % (sid, Emitter.b(r["parsed"]), r["from"], Emitter.b(r["enq"] > 0), r["attr_key"] or "0"), r)
+                add("KOn %d %s %s %d %s %s %d" % (sid, Emitter.b(r["parsed"]), Emitter.nlist(r["ids"]), r["from"], Emitter.b(r["enq"] > 0),
+                                                  r["attr_key"] or "0", r["attr_idx"] + 1 if r["enq"] > 0 else 0), r)
         elif k == "sign" and r.get("expect") == "sign":
             if sid == 1:
                 add("KSignEd %s %s %s %s" % (hexlist(r["digest"]), Emitter.b(bool(r.get("sig"))),
@@ -116,6 +118,7 @@ def run(pid, tier, seed):
                       no_input=True)
     all_rows, corr_mism, evals, dist = {}, [], 0, collections.Counter()
     nontrivial = set()
+    slots = {}
     for scheme, sid in SCHEMES:
         rc, out, rows, mode = capture(scheme, tier, seed, chk.rundir())
         all_rows[scheme] = rows
@@ -182,6 +185,29 @@ def run(pid, tier, seed):
                                 dict(what="OnMsg queued a message attributed to another sender than the transport sender (or panicked)", case=o),
                                 "%s OnMsg from=%d attributed to %s panic=%s" % (scheme, o["from"], o["attr_key"], o["panic"]))
                 break
+        # ---- monitor 3b: the slot the queued message is filed under (From.Index, all tss-lib looks at) is the slot of the party
+        #      whose key equals the transport sender's, or negative (refused by tss-lib): no outsider is given a member's slot
+        slot_obs = slot_nonmember = 0
+        for o in ons + [dict(m, enq=m["on_enq"]) for m in mals]:
+            if o["enq"] > 0:
+                slot_obs += 1
+                slot_nonmember += o["from"] not in o["ids"]
+                i, ids = o["attr_idx"], o["ids"]
+                if i >= 0 and (i >= len(ids) or ids[i] != o["from"]):
+                    owner = ids[i] if i < len(ids) else None
+                    chk.monitor_hit("", "sender_slot_%s.json" % scheme,
+                                    dict(what="OnMsg queued a message of transport sender %d under slot %d of the session %s, which belongs to party %s: "
+                                              "tss-lib files messages by that index alone, so the sender is taken for that party"
+                                              % (o["from"], i, ids, owner),
+                                         scheme=scheme, session=ids, receiver=o.get("self"), transport_sender=o["from"], sender_is_member=o["from"] in ids,
+                                         queued_under_slot=i, slot_owner=owner, message_type=o.get("url") or o.get("what"), case=o,
+                                         replay="NewParty(%s).Init(%s, 1, ..); OnMsg(<any well-formed message, e.g. Any{TypeUrl: %s}>, from=%d, broadcast); "
+                                                "the message in p.in has GetFrom().Index == %d" % (o.get("self"), ids, o.get("url"), o["from"], i)),
+                                    "%s OnMsg: sender %d (%s) filed under slot %d owned by %s in session %s"
+                                    % (scheme, o["from"], "member" if o["from"] in ids else "not a member", i, owner, ids))
+                    break
+        slots[scheme] = dict(queued_with_slot_checked=slot_obs, of_which_non_members=slot_nonmember,
+                             sessions=len(set(tuple(o["ids"]) for o in ons)))
         for m in mals:
             if m["cls_panic"] or m["on_panic"] or (m["on_enq"] > 0 and m["attr_key"] != str(m["from"])):
                 chk.monitor_hit("", "malformed_%s.json" % scheme,
@@ -256,6 +282,7 @@ def run(pid, tier, seed):
                        "decodes as a protobuf Any (classification) / reaches the queueing decision / returns a signature; distinct by "
                        "(scheme, projected observation) after deduplication")
     chk.cov["input_distribution"] = dict(dist)
+    chk.cov["slot_lookup"] = slots
     chk.cov["traces_validated_against_impl"] = sum(1 for rows in all_rows.values() for r in rows if r["kind"] in ("keygen", "sign"))
     samples = []
     for scheme, _ in SCHEMES:
